@@ -87,7 +87,9 @@ def run_args(case, child):
             v = f(NAMEARG[arg])
         elif fn == "proc_cpu_affinity_set":
             a = {"empty_list": [], "neg": [-1], "huge": [100000], "dups": [0, 0, 0], "2p40": [2 ** 40],
-                 "strs": ["0"], "not_seq": 5, "tuple": (0,), "generator": (i for i in range(1))}[arg]
+                 "strs": ["0"], "not_seq": 5, "tuple": (0,), "generator": (i for i in range(1)),
+                 "cpu63": [63], "cpu64": [64], "cpu300": [300], "cpu1023": [1023], "cpu1024": [1024],
+                 "many": list(range(0, 1100, 7))}[arg]
             v = f(child, a)
         elif fn == "setpriority":
             a = {"ok": 5, "out_of_range": 1000, "2p31": 2 ** 31, "str": "5"}[arg]
